@@ -350,24 +350,26 @@ func (d *ShellGrantData) ReadFrom(r io.Reader) (int64, error) {
 
 // WriteTo writes serialized local pf grant data
 func (d *LocalPFGrantData) WriteTo(w io.Writer) (int64, error) {
-	panic("LocalPFGrantData WriteTo: unimplemented")
+	// no associated data is defined for this grant type yet
+	return 0, nil
 }
 
 // ReadFrom reads a serialized commandgrantdata block
 func (d *LocalPFGrantData) ReadFrom(r io.Reader) (int64, error) {
-	// read command
-	panic("LocalPFGrantData ReadFrom: unimplemented")
+	// no associated data is defined for this grant type yet
+	return 0, nil
 }
 
 // WriteTo writes serialized remote pf grant data
 func (d *RemotePFGrantData) WriteTo(w io.Writer) (int64, error) {
-	panic("RemotePFGrantData WriteTo: unimplemented")
+	// no associated data is defined for this grant type yet
+	return 0, nil
 }
 
 // ReadFrom reads a serialized commandgrantdata block
 func (d *RemotePFGrantData) ReadFrom(r io.Reader) (int64, error) {
-	// read command
-	panic("RemotePFGrantData ReadFrom: unimplemented")
+	// no associated data is defined for this grant type yet
+	return 0, nil
 }
 
 // ReadIntentRequest reads intent request and returns intent
